@@ -41,6 +41,27 @@ theorem extend_spec_nopad (ch : Char) (l r : Nat) (cs : List Char) :
     extendSpec ch l r false cs = List.replicate l ch ++ cs ++ List.replicate r ch :=
   Kitoken.Proofs.Normalize.extend_spec_nopad ch l r cs
 
+/-! ### Strip undoes Extend (the pair a whitespace-marker tokenizer runs on the two sides) -/
+
+/-- Strip undoes an unpadded Extend with the same character and counts, on every text — also one that
+    already begins or ends with copies of the character. -/
+theorem strip_extend_inverse (ch : Char) (l r : Nat) (cs : List Char) :
+    stripSpec ch l r (extendSpec ch l r false cs) = cs := by
+  rw [extend_spec_nopad]
+  unfold stripSpec
+  simp only [List.append_assoc, Kitoken.Proofs.Normalize.leadingCount_replicate_append]
+  have hd : List.drop l (List.replicate l ch ++ (cs ++ List.replicate r ch)) = cs ++ List.replicate r ch := by
+    simp
+  rw [hd, List.reverse_append, List.reverse_replicate, Kitoken.Proofs.Normalize.leadingCount_replicate_append]
+  simp
+
+/-- The same for the byte-level functions the pipeline runs, on every valid UTF-8 text. -/
+theorem strip_extend_bytes_inverse (ch : Char) (l r : Nat) (cs : List Char) :
+    normalizeStrip ch l r (decodeExtend ch l r false (encodeChars cs)) = .ok (encodeChars cs) := by
+  rw [extend_chars, strip_chars, strip_extend_inverse]
+
+example : stripSpec '_' 1 2 (extendSpec '_' 1 2 false ['_', 'a', '_']) = ['_', 'a', '_'] := by decide
+
 /-! ### Collapse -/
 
 theorem collapse_chars (ch : Char) (cs : List Char) :
